@@ -134,9 +134,6 @@ def load_jsonl(p):
 def run_correspondence(ck, consts):
     henv = {"C03_THRESHOLD": str(consts["THRESHOLD"]), "C03_FLUSH_LIMIT": str(consts["FLUSH_LIMIT"]), "C03_TIER": ck.tier,
             "C03_HISTORY_EVERY": "4" if consts.get("_more_histories") else "16"}
-    if not ck.go_build("decode"):
-        ck.obligation("harness decode builds against the repository", False, ck.build_out[-1500:])
-        return
     cases = []
     corpus = os.path.join(ROOT, "corpus", PID, "decode.jsonl")
     if os.path.exists(corpus):
@@ -411,6 +408,90 @@ def run_labels(ck):
     ck.add_samples([{k: v for k, v in c.items() if k != "coq"} for c in cases if c["has_src"] and len(c["src"]) >= 2][:2])
 
 
+THEADER = ("From Coq Require Import List ZArith NArith Bool String Uint63.\n"
+           "From Qryn Require Import model.Decode model.LokiTime.\n"
+           "Import ListNotations.\nOpen Scope string_scope.\nOpen Scope Z_scope.\n")
+
+
+def run_time(ck):
+    """parseTime (dispatch + strconv.ParseInt; time.Parse(RFC3339) is an oracle) against model/LokiTime.v"""
+    ok, out = ck.coq_make(["model/LokiTime.vo"])
+    if not ok:
+        ck.obligation("model/LokiTime.v builds", False, out[-1500:])
+        return
+    env = {"C03_MODE": "time"}
+    cases = []
+    corpus = os.path.join(ROOT, "corpus", PID, "time.jsonl")
+    srcs = [("corpus", corpus, 1000000)] if os.path.exists(corpus) else []
+    if ck.replay:
+        rp = json.load(open(ck.replay))
+        if "time_case" in rp:
+            p = os.path.join(ck.work, "time_replay_in.jsonl")
+            open(p, "w").write(json.dumps({k: v for k, v in rp["time_case"].items() if k != "coq"}) + "\n")
+            srcs.append(("replay", p, 2000000))
+    for tag, path, base in srcs:
+        outp = os.path.join(ck.work, "time_%s_out.jsonl" % tag)
+        rc, out = ck.go_run("decode", ["--cases", path, "--out", outp], env_extra=env)
+        ck.obligation("timestamp %s cases re-run" % tag, rc == 0, out[-1500:])
+        if rc == 0:
+            cs = [json.loads(l) for l in open(outp) if l.strip()]
+            for i, c in enumerate(cs):
+                c["id"] = base + i
+                c["coq"] = re.sub(r"^TCase \d+ ", "TCase %d " % c["id"], c["coq"])
+                c["class"] = tag + ":" + c["class"]
+            cases += cs
+    n = ck.n(3000, 60000)
+    outp = os.path.join(ck.work, "time.jsonl")
+    rc, out = ck.go_run("decode", ["--seed", ck.seed, "--n", n, "--out", outp], timeout=600, env_extra=env)
+    if rc != 0:
+        ck.obligation("harness decode (timestamps) ran", False, out[-1500:])
+        return
+    cases += [json.loads(l) for l in open(outp) if l.strip()]
+    byid = {c["id"]: c for c in cases}
+    mism, viol = [], []
+    for k in range(0, len(cases), 4000):
+        m, v, out = eval_two(ck, "C03_time_%d" % (k // 4000), THEADER, "tcase", cases[k:k + 4000], "tc_check_all")
+        if m is None:
+            ck.obligation("timestamp cases evaluated inside Coq", False, out[-2500:])
+            return
+        mism += m
+        viol += v
+    viol = sorted(set(viol) | {c["id"] for c in cases if c.get("panic")})
+    known = ck.known_findings()
+    fresh = []
+    for i in viol:
+        c = byid[i]
+        if "negative-integer-timestamp-rejected" in known and c["class"].split(":")[-1].startswith("integer") and c["class"].endswith("negative"):
+            ck.report_known("negative-integer-timestamp-rejected", known["negative-integer-timestamp-rejected"][:200])
+        else:
+            fresh.append(i)
+    nw = sum(1 for c in cases if c["has_want"])
+    ck.obligation("timestamps: model LokiTime.parse_time = parseTime (nanoseconds or error) on %d texts" % len(cases),
+                  not [i for i in mism if i in fresh or i not in viol], "mismatching case ids: %s" % mism[:10])
+    ck.obligation("timestamps: every text written from a nanosecond timestamp (%d texts: decimal integers of either sign, RFC 3339 with nanoseconds) is read back as exactly that timestamp" % nw,
+                  not fresh, "violating case ids: %s" % fresh[:10])
+    if fresh:
+        worst = min((byid[i] for i in fresh), key=lambda c: len(c["text"]) if isinstance(c["text"], str) else 10**6)
+        ck.violation({"property": PID, "kind": "a timestamp text is not read back as the nanosecond timestamp it was written from",
+                      "class": worst["class"], "time_case": {k: v for k, v in worst.items() if k != "coq"},
+                      "cases_with_this_failure": len(fresh),
+                      "explanation": "tc_spec_violation (coq/model/LokiTime.v): parseTime(text) must return the timestamp; a Loki JSON push whose entry carries this text under ts/timestamp fails as a whole",
+                      "replay": "bin/check C03 --replay <this file>"})
+    elif [i for i in mism if i not in viol]:
+        worst = byid[[i for i in mism if i not in viol][0]]
+        ck.violation({"property": PID, "kind": "model/implementation disagree on a timestamp text", "class": worst["class"],
+                      "time_case": {k: v for k, v in worst.items() if k != "coq"}, "broken": "correspondence LokiTime.parse_time vs parseTime"}, no_input=True)
+    hist = {}
+    for c in cases:
+        key = "time/" + c["class"] + "/" + ("ok" if c["obs_ok"] else "error")
+        hist[key] = hist.get(key, 0) + 1
+    ck.extra["timestamp_text_distribution"] = hist
+    ck.coverage["evaluations"] += len(cases)
+    ck.coverage["distinct_nontrivial"] += len({json.dumps(c["text"]) for c in cases if c["has_want"] and abs(c["want"]) > 10**9})
+    ck.coverage["rule"] += ("Timestamp texts for parseTime: decimal nanoseconds (both signs, + sign, leading zeros, int64 bounds), RFC 3339 with nanoseconds and offsets, malformed; "
+                            "non-trivial = written from a timestamp more than a second away from the epoch; distinct by text. ")
+
+
 def run(ck):
     ck.trusted += [
         "C03: the wire decoders (jx, protobuf, the telegraf Influx parser, the Datadog tag regexp, text/scanner for Loki label strings) are crossed by the correspondence only; the harness's serialisers are trusted",
@@ -428,5 +509,12 @@ def run(ck):
         return
     if not ck.quick():
         ck.coqchk(["Qryn.props.C03"])
-    run_correspondence(ck, consts)
-    run_labels(ck)
+    if not ck.go_build("decode"):
+        ck.obligation("harness decode builds against the repository", False, ck.build_out[-1500:])
+        return
+    # the three correspondences (bodies, label strings, timestamp texts) are evaluated side by side
+    from concurrent.futures import ThreadPoolExecutor
+    with ThreadPoolExecutor(max_workers=3) as ex:
+        fs = [ex.submit(run_correspondence, ck, consts), ex.submit(run_labels, ck), ex.submit(run_time, ck)]
+        for f in fs:
+            f.result()
